@@ -563,7 +563,10 @@ def _divmod(a, b):
     """floored q, r with a == q*b + r ; r has the sign of b (python semantics)"""
     ta, tb = _lift(a), _lift(b)
     if not (ta.is_int() and tb.is_int()):
-        raise Unsupported("// or % on non-integers")
+        # python float semantics: a // b == floor(a / b) (a float), a % b == a - (a // b) * b
+        q = sym_floor(sym_truediv(a, b))
+        qr = _to_real(_lift(q))
+        return qr, z3.simplify(_to_real(ta) - qr * _to_real(tb))
     cb = z3.simplify(tb)
     if z3.is_int_value(cb):
         bv = cb.as_long()
